@@ -9,7 +9,7 @@ def run(chk):
                 'log_pdf_to_affiliation, exact; V: all 7 mixture models x tying options x saliency x mask x eps x '
                 'regimes (regular, separable, degenerate, scaled 1e+-150): predict / fit_predict / hooked E-steps must '
                 'equal Bayes rule with the model own log_pdf and stored weights; flag initializer exact; iid / deflation '
-                'initializers are distributions. non-trivial = K>=2 and an observation with >=2 classes in (0.01, 0.99)')
+                'initializers are distributions; inline-aligned E-step of the integration models on the exact lattice. non-trivial = K>=2 and an observation with >=2 classes in (0.01, 0.99)')
     r = chk.mc('posterior-K2N1', 'MC_Posterior', 'MC_Posterior_q.cfg', workers=8)
     expect = r.distinct
     if not q:
@@ -20,6 +20,10 @@ def run(chk):
     if nb != expect:
         raise core.MachineryError(f'lattice enumeration: {nb} driver cases, MC instance {expect}')
     chk.validate('posteriors', 'Trace_MM', 'Trace_MM.cfg', recs, driver='mm', jobs=14)
+    # E-step of the integration models with the built-in spatial / spectral alignment: Bayes rule with the STORED weights
+    # under a best permutation of the spatial stream (exact lattice, non-uniform weights)
+    irecs = core.run_driver('mm', tier=chk.tier, seed=chk.seed, args=dict(prop='inlinepa'))
+    chk.validate('inline-pa', 'Trace_MM', 'Trace_MM.cfg', irecs, driver='mm', jobs=12)
     goods = [x for x in recs if x['kind'] == 'posterior' and x['exc'] == '' and x['full'][-2] >= 2
             and 'call=predict' in x['fp'] and 'sam=False' in x['fp']]
     good = goods[0]
